@@ -120,6 +120,10 @@ Example C20_some_lookup_succeeds :
   (exists a, scat_lookup "H" = Ok a) /\ (exists a, atom_lookup "2H" = Ok a /\ a_z a = 1%N)
   /\ atom_lookup "D" = Err ValueError /\ atom_lookup " H" = Err TypeError.
 Proof. vm_compute. repeat split; eexists; split; reflexivity. Qed.
+Example C20_unknown_names_exist :
+  existsb (String.eqb "Hx") (names scat_rows) = false
+  /\ existsb (String.eqb "D") (names weight_rows ++ names mass_rows) = false.
+Proof. vm_compute. split; reflexivity. Qed.
 Example C20_attenuation_nonvacuous :
   (1 > 0)%R /\ is_num DF64 = true /\ is_num DI64 = true.
 Proof. repeat split; try reflexivity. exact Rlt_0_1. Qed.
